@@ -127,7 +127,12 @@ FAULTS = ["drop", "dup", "swap", "trunc-adjust", "trunc-raw", "inject-earlier", 
 # does not implement it, and an endpoint that completes although a record was injected contradicts the statement as given.  Alerts are left
 # out (warning alerts may legitimately be ignored),
 # empty or short payloads, the connection's own version bytes or another known version
-CRAFT_TYPES = [22, 23, 23, 24, 0, 255, 20, 20, 20]
+CRAFT_TYPES = [22, 22, 22, 23, 23, 24, 0, 255, 20, 20, 20]
+# injected handshake-type records: mostly small well-formed handshake messages - HelloRequest, ServerHelloDone, an unknown message type,
+# an empty Certificate, KeyUpdate, a Finished with 12 zero bytes, an EndOfEarlyData - besides the raw fill of the other content types.
+# (RFC 5246 lets a client that is negotiating ignore a HelloRequest; the statement as given does not: a handshake that both sides report
+# complete although a handshake record was injected contradicts it, as with the stray ChangeCipherSpec of TLS 1.3.)
+CRAFT_HS = [bytes.fromhex(x) for x in ("00000000", "0e000000", "ff000000", "0b000003000000", "1800000100", "1400000c" + "00" * 12, "05000000", "00000001" "00")]
 CRAFT_VERS = ["", "", "0303", "0301", "0101", "0304"]
 rec_case = st.fixed_dictionaries(dict(cfg, rec=st.integers(0, 63), fault=st.sampled_from(FAULTS), k=st.integers(1, 40), other=st.integers(0, 63),
                                       ctype=st.sampled_from(CRAFT_TYPES), cver=st.sampled_from(CRAFT_VERS), clen=st.sampled_from([0, 0, 0, 1, 2, 4, 16]),
@@ -183,6 +188,8 @@ def recfault(case, ctx):
             if fault == "inject-crafted":
                 ver = bytes.fromhex(case.get("cver") or "") or rec.raw[1:3]
                 pl = bytes([case.get("cfill", 0)]) * case.get("clen", 0)
+                if case.get("ctype") == 22 and (case.get("clen", 0) != 16):
+                    pl = CRAFT_HS[(case.get("clen", 0) * 3 + {0: 0, 1: 1}.get(case.get("cfill", 0), 2)) % len(CRAFT_HS)]
                 if case.get("ctype") == 20:      # mostly the one well-formed ChangeCipherSpec body
                     pl = [b"\x01", b"\x01", b"\x01", b"\x01", b"", b"\x00", b"\x01\x01"][(case.get("clen", 0) + case.get("cfill", 0)) % 7]
                 hit.append(1)
@@ -223,6 +230,16 @@ def recfault(case, ctx):
                       "recfault/post-stray-accepted/%s/%s" % (proto, dd))
         return
     _verdict(ctx, hc, hs, what, "recfault/%s/%s/%s#%d" % (fault, proto, d, idx), stalled)
+
+
+hsinj_case = st.fixed_dictionaries(dict(cfg, rec=st.integers(0, 63), hs=st.integers(0, len(CRAFT_HS) - 1), cver=st.sampled_from(CRAFT_VERS)))
+
+
+@P.sub("injecths", hsinj_case, quick=500, thorough=20000)
+def injecths(case, ctx):
+    """a small well-formed handshake message (HelloRequest, ServerHelloDone, empty Certificate, KeyUpdate, ...) injected in front of a handshake record"""
+    i = case["hs"]
+    recfault(dict(case, fault="inject-crafted", k=1, other=0, ctype=22, clen=i // 3, cfill=(0, 1, 255)[i % 3]), ctx)
 
 
 # ---------------------------------------------------------------------------
